@@ -1,7 +1,7 @@
 (* C05 — model arithmetic and evaluation agree with polynomial arithmetic.
    Statements only; proofs in Proofs/ArithProofs.v, ExprProofs.v, ValuesProofs.v. *)
 From QV.Model Require Import Base Matrix Arith Expr Values.
-From QV.Proofs Require Import BaseProofs KeyProofs ArithProofs ExprProofs ValuesProofs UniqueProofs.
+From QV.Proofs Require Import BaseProofs KeyProofs ArithProofs ExprProofs ValuesProofs UniqueProofs UniqueSpin.
 Open Scope Q_scope.
 
 (* Any expression tree over the ten model kinds, DictArithmetic, raw dicts and
@@ -94,6 +94,16 @@ Theorem C05_unique_sub : forall a b d, is_spin (kd a) = false -> kd a <> KDict -
   m_sub a (OModel b) = Ok d -> (forall x, boolean_env x -> eval x (tm a) == eval x (tm b)) -> tm d = [].
 Proof. exact equal_values_sub_empty. Qed.
 Print Assumptions C05_unique_sub.
+(* the same for the spin kinds: a canonically stored spin polynomial that is 0 at every +-1 assignment has no terms (split on
+   one label at a time: both halves of t = z_a * t1 + t0 vanish, by induction on the total key length) *)
+Theorem C05_unique_zero_spin : forall kd0 t, is_spin kd0 = true -> wf kd0 t ->
+  (forall z, spin_env z -> eval z t == 0) -> t = [].
+Proof. exact zero_poly_empty_spin. Qed.
+Print Assumptions C05_unique_zero_spin.
+Theorem C05_unique_sub_spin : forall a b d, is_spin (kd a) = true -> wf (kd a) (tm a) ->
+  m_sub a (OModel b) = Ok d -> (forall z, spin_env z -> eval z (tm a) == eval z (tm b)) -> tm d = [].
+Proof. exact equal_values_sub_empty_spin. Qed.
+Print Assumptions C05_unique_sub_spin.
 
 (* non-vacuity: a tree over a PUBO leaf, a raw dict and a scalar evaluates, and its leaves are boolean kinds *)
 Example C05_example :
